@@ -18,6 +18,7 @@ class C17(WrapHarness):
         out.append({'feat': 'full', 'gen': 'words', 'nwords': 3 if q else 4, 'wl': 1 if q else 2, 'maxgap': 2, 'lead': True, 'trail': True})
         out.append({'feat': 'full', 'gen': 'alpha', 'alphabet': [' ', 'a', '\n', '你', '-'], 'n': 5 if q else 7})
         out.append({'feat': 'full', 'gen': 'alpha', 'alphabet': ['\r', '\n', ' ', 'a', '\u00e9'], 'n': 5 if q else 6})
+        out += std_tmpl_spaces({'feat': 'full'}, q, variants=False)
         return out
 
     def bounds_text(self, tier):
